@@ -133,7 +133,14 @@ class ExpandedTraceback:
         self.full_traceback = full_traceback
         self.hide_filenames = hide_filenames
         self.show_filenames = show_filenames
-        innermost = traceback.extract_tb(exc_info[2])[-1]
+        frames = traceback.extract_tb(exc_info[2])
+        innermost = frames[-1]
+        # Blame the student's own line even when the exception surfaced inside
+        # one of our replacement functions (e.g., the mocked import or open)
+        for frame in reversed(frames):
+            if frame.filename in student_files:
+                innermost = frame
+                break
         # Use whole-file numbering when the file is being run section by section
         self.line_number = innermost[1] + line_offsets.get(innermost[0], 0)
         self.original_code_lines = original_code_lines
